@@ -405,6 +405,18 @@ func judgeStrFn(c StrFnCase) *eng.Fail {
 		if a[1] != interface{}(inc) || a[3] != interface{}(inc) {
 			return fail("includes(list,u)", a, inc)
 		}
+		// a list that was searched is still the list that was supplied: joined afterwards (in the same formula
+		// and in a later one) it is the same text, and the caller's Go slice holds what it held
+		v2, f2 := ev("[includes(ls,u), join(ls,t), includes(l,u), join(l,t), includes(ls,t) || true, join(ls,t)]")
+		if f2 != nil {
+			return f2
+		}
+		if a2 := v2.([]interface{}); a2[1] != interface{}(wj) || a2[3] != interface{}(wj) || a2[5] != interface{}(wj) || a2[0] != interface{}(inc) {
+			return fail("join(list,t) after includes(list,u)", a2, wj)
+		}
+		if got := data["ls"].([]string); strings.Join(got, "\x00") != strings.Join(c.L, "\x00") || len(got) != len(c.L) {
+			return fail("the caller's []string after includes and join", got, c.L)
+		}
 		outcome(fmt.Sprint("list ", wj, inc))
 	case "listlit":
 		// the same through an array literal written in the formula
